@@ -13,7 +13,7 @@ import numpy as np
 from vf import tlc as tlcmod
 from vf.core import quiet
 
-CFG = "CONSTANTS MaxSlots = %d\nEmitAll = %s\nSPECIFICATION Spec\nINVARIANT InvLaw\nINVARIANT CapLaw\nINVARIANT Shapes\nINVARIANT PsdLaw\nINVARIANT Emit\nCHECK_DEADLOCK FALSE\n"
+CFG = "CONSTANTS MaxSlots = %d\nEmitAll = %s\nFocus = \"all\"\nSPECIFICATION Spec\nINVARIANT InvLaw\nINVARIANT CapLaw\nINVARIANT Shapes\nINVARIANT PsdLaw\nINVARIANT Emit\nCHECK_DEADLOCK FALSE\n"
 SC = {"1": 1.0, "2": 2.0, "-1": -1.0, "1/2": 0.5, "i": 1j, "1+i": 1 + 1j}
 
 
@@ -247,6 +247,10 @@ def run(ctx):
     e1 = ctx.tlc("OpAlgebra", CFG % (1, "TRUE"), label="all leaves", workers=1)
     e2 = ctx.tlc("OpAlgebra", CFG % (2, "TRUE"), label="all 2-slot programs", workers=1, timeout=900)
     progs += e1.emitted + e2.emitted
+    # every program of up to 3 (quick) / 4 slots over a small family of leaves: inverses and adjoints of diagonals under scalings, chains, sandwiches
+    f3 = ctx.tlc("OpAlgebra", (CFG % (3 if q else 4, "TRUE")).replace('Focus = "all"', 'Focus = "diag"'), label="all %d-slot programs over the focused leaves" % (3 if q else 4),
+                 workers=1, timeout=3000)
+    progs += f3.emitted
     if q:
         s3 = ctx.tlc("OpAlgebra", CFG % (3, "TRUE"), label="simulated 3-slot programs", workers=1, simulate=800, depth=4, seed=ctx.seed + 1, timeout=900)
         progs += s3.emitted
